@@ -18,6 +18,8 @@ import Golib.Lists.Multi
 import Golib.Lists.Cross
 import Golib.Lists.TableWire
 import Golib.Lists.LinkedAtomic
+import Golib.Lists.LinkedConc
+import Golib.Lists.CrossNum
 
 namespace C13
 open Lists
@@ -295,6 +297,25 @@ theorem go_sort_small_inputs {α : Type} {less : α → α → Bool} (h : TotalP
 theorem go_sort_contract (big : SortFn) (hb : BigContract big) : SortContract (goSort big) :=
   goSort_contract big hb
 
+/-- **sorting_orders_go / sortingAnyList_orders_go.**  The final form: for Go's `sort.Sort`
+    (`goSort big`: insertion sort as transcribed up to 12 elements, `big` beyond) the ONLY hypothesis
+    is `BigContract big` — about inputs longer than 12 elements.  Tie B checks that contract on the
+    Go runtime directly (S cases: `sort.Sort` with reflexive total-preorder `Less`, 13 … 5000
+    elements, duplicate-heavy) and through every Sorting* call. -/
+theorem sorting_orders_go {α : Type} (big : SortFn) (hb : BigContract big)
+    {le : α → α → Bool} (h : TotalPreorder le) (asc : Bool) (vals : Nat → α) (n : Nat) :
+    (sorting (goSort big) le asc vals n).Perm (List.range n) ∧
+    ((sorting (goSort big) le asc vals n).map vals).Pairwise (fun a b => dir le asc a b = true) :=
+  sorting_ok (goSort big) (goSort_contract big hb) h asc vals n
+
+theorem sortingAnyList_orders_go {α β : Type} (big : SortFn) (hb : BigContract big)
+    {le : α → α → Bool} {cle : β → β → Bool} (h : TotalPreorder le) (hc : TotalPreorder cle)
+    (asc childAsc : Bool) (vals : Nat → α) (child : Nat → β) (n : Nat) :
+    (sortingAnyList (goSort big) le asc vals cle child childAsc n).Perm (List.range n) ∧
+    (sortingAnyList (goSort big) le asc vals cle child childAsc n).Pairwise
+      (Ordered2 le asc vals cle child childAsc) :=
+  sortingAnyList_ok (goSort big) (goSort_contract big hb) h hc asc childAsc vals child n
+
 /-- the residual assumption is satisfiable -/
 theorem big_contract_satisfiable : BigContract (fun less xs => xs.mergeSort less) :=
   ⟨fun less xs _ => List.mergeSort_perm xs less,
@@ -383,6 +404,37 @@ example : Cross.atoi [43, 55] = some 7 ∧ Cross.atoi [45] = none ∧ Cross.atoi
 
 example : Cross.decDigits 120 = [49, 50, 48] := by
   rw [Cross.decDigits, Cross.decDigits, Cross.decDigits]; simp
+
+/-! ### numeric cross-type methods, GetValue / GetObject / ToString -/
+
+/-- **numeric_view.**  AddInt/AddLong/AddFloat/AddDouble, Set…, GetInt/GetLong/GetFloat/GetDouble,
+    GetValue, GetObject on an int, long, float or double list answer as the plain sequence with
+    Go's conversion (`FloatConv`: round to nearest even into float32/float64 with subnormals and
+    overflow to ±Inf; truncation toward zero into int64) applied on the way in / out.  Excluded
+    (answer `excluded`, never generated by tie B): float → int of NaN, ±Inf or a value whose
+    truncation is outside int64 — Go leaves that result implementation-dependent — and NaN operands. -/
+theorem numeric_view (g : Growth) (hg : g.OK) (k : CrossNum.Kind) (op : CrossNum.NOp)
+    (l : TL CrossNum.Num) (hi : TL.Inv l) (hb : (TL.abs l).length + 1 ≤ TL.BOUND) :
+    (CrossNum.step g k op l).1 = (CrossNum.spec k op (TL.abs l)).1 ∧
+    TL.abs (CrossNum.step g k op l).2 = (CrossNum.spec k op (TL.abs l)).2 ∧
+    TL.Inv (CrossNum.step g k op l).2 :=
+  CrossNum.step_refines g hg k op l hi hb
+
+/-- a value stored through a conversion is already of the list's kind: converting it again (the
+    matching getter) returns it unchanged -/
+theorem numeric_conv_idempotent (k : CrossNum.Kind) (x y : CrossNum.Num)
+    (h : CrossNum.conv k x = some y) : CrossNum.conv k y = some y := CrossNum.conv_idem k x y h
+
+/-- ToString prints the whole table; it shows exactly the sequence iff there is no spare capacity
+    (an observable that does depend on capacity — not one of this property's) -/
+theorem toString_full_table (l : TL Int) (h : l.table.size = l.size) :
+    CrossNum.toStringInts l = [91] ++ CrossNum.joinSp ((TL.abs l).map Cross.itoa) ++ [93] :=
+  CrossNum.toStringInts_full l h
+
+example : CrossNum.conv .f64 (.int 9007199254740993) = some (.f64 0x4340000000000000) ∧
+    CrossNum.conv .int (.f64 0xbff8000000000000) = some (.int (-1)) ∧
+    CrossNum.conv .int (.f64 0x43e0000000000000) = none ∧
+    CrossNum.conv .f32 (.f64 0x3ff0000010000000) = some (.f32 0x3f800000) := by decide
 
 /-! ### StatGeneralPack's table of lists -/
 
@@ -496,6 +548,30 @@ theorem linkedlist_atomic_conservation (ops : List Linked.Op) (s : List Int)
       ((Linked.Spec.run ops s).2 ++ ((Linked.Spec.run ops s).1.map Linked.Out.handedOut).flatten).Perm
         ((Linked.Spec.run ops2 s).2 ++ ((Linked.Spec.run ops2 s).1.map Linked.Out.handedOut).flatten) :=
   ⟨Linked.run_conserves ops s h, fun ops2 hp => Linked.interleavings_agree ops ops2 s hp h⟩
+
+/-- **linkedlist_locked_conservation.**  With the mutex modelled (C10's mutex-object machine: any
+    number of threads, any schedule of inv/acq/load/store/rel/ret actions, the pointer-level body
+    between acq and rel): after EVERY schedule the heap represents the list the deque holds after
+    the linearized operations, the recorded results are the deque's, and for mutators the elements
+    left together with the elements handed out are exactly the elements added; two threads are
+    never inside a body at once.  That the code is such a machine is tie A
+    (`C13Gen.linkedlist_*_locked`). -/
+theorem linkedlist_locked_conservation (sched : List (Conc.Act Linked.Op))
+    (s : Conc.St Linked.LL Linked.Op Linked.Out)
+    (hs : Conc.runActs Conc.Inst.llStep (Conc.initSt Linked.LL.empty) sched = some s) :
+    (∃ vals, Conc.Inst.ListRel s.sh vals ∧
+      vals = (Linked.Spec.run (Linked.opsOf (Conc.linOps s.log)) []).2 ∧
+      Linked.outsOf (Conc.linOps s.log) = (Linked.Spec.run (Linked.opsOf (Conc.linOps s.log)) []).1 ∧
+      ((∀ op ∈ Linked.opsOf (Conc.linOps s.log), op.mutator = true) →
+        (vals ++ ((Linked.outsOf (Conc.linOps s.log)).map Linked.Out.handedOut).flatten).Perm
+          (((Linked.opsOf (Conc.linOps s.log)).map Linked.Op.added).flatten))) ∧
+    (∀ t u, Conc.inCS (s.ph t) → Conc.inCS (s.ph u) → t = u) :=
+  ⟨Linked.locked_conservation sched s hs, fun t u ht hu => Linked.locked_mutual_exclusion sched s hs t u ht hu⟩
+
+/-- a schedule of two threads: both invoke Add, thread 1 runs its body inside thread 0's invocation -/
+example : (Conc.runActs Conc.Inst.llStep (Conc.initSt Linked.LL.empty)
+    [.inv 0 (.add 1), .inv 1 (.add 2), .acq 1, .load 1, .store 1, .rel 1, .acq 0, .load 0, .store 0,
+     .rel 0, .ret 0, .ret 1]).map (fun s => s.sh.size) = some 2 := by decide
 
 example : ((Linked.Spec.run [.add 1, .addFirst 2, .removeLast, .addLast 3, .removeAt 0] []).2 ++
     [1, 2]).Perm ([] ++ [1, 2, 3]) := by decide
